@@ -18,6 +18,7 @@ import (
 
 	"github.com/dave/dst"
 	"github.com/dave/dst/decorator"
+	"github.com/dave/dst/decorator/resolver/goast"
 	"github.com/dave/dst/decorator/resolver/guess"
 	"github.com/dave/dst/decorator/resolver/simple"
 )
@@ -402,6 +403,7 @@ func checkC07(c *Ctx) {
 		}
 		c.Fail(Finding{Sig: "imports-" + res.Violated, Input: it.Key, What: fmt.Sprintf("predicate %s of ImportsTrace.tla fails on the restored output: %s", res.Violated, truncate(string(it.Trace), 500)), Replay: it.Replay})
 	})
+	c07TwoPass(c)
 	// one import-managing Decorator / Restorer / FileRestorer for several files (Reuse.tla)
 	if !c07Reuse(c) {
 		return
@@ -652,6 +654,49 @@ func c07CaseVariants(c *Ctx) {
 				c.Fail(Finding{Sig: "imports-nondeterministic", Input: key, What: fmt.Sprintf("set %d restored twice gives different results:\n%s\nvs\n%s", si, first, out), Replay: obj{"kind": "none"}})
 				return
 			}
+		}
+	}
+}
+
+// c07TwoPass: the same dst tree restored again after a further edit (fresh import-managing Restorer each
+// time; the first restore has edited the import declarations of the tree): a file that had no imports
+// gets a reference (import added), the reference is removed again (import removed); and the same with a
+// file that had imports.
+func c07TwoPass(c *Ctx) {
+	for name, src := range map[string]string{
+		"no-imports":   "package main\n\nfunc a() {}\n",
+		"with-imports": "package main\n\nimport \"os\"\n\nfunc a() { _ = os.Args }\n",
+	} {
+		key := "two-pass|" + name
+		c.Eval(key, true)
+		f, err := decorator.NewDecoratorWithImports(token.NewFileSet(), "main", goast.New()).Parse(src)
+		if err != nil {
+			c.Infra("two-pass source is refused: " + err.Error())
+			return
+		}
+		print := func() (string, error) {
+			var buf bytes.Buffer
+			err := decorator.NewRestorerWithImports("main", guess.New()).Fprint(&buf, f)
+			return buf.String(), err
+		}
+		fn := f.Decls[len(f.Decls)-1].(*dst.FuncDecl)
+		call := &dst.ExprStmt{X: &dst.CallExpr{Fun: &dst.Ident{Name: "Println", Path: "fmt"}}}
+		fn.Body.List = append(fn.Body.List, call)
+		out1, err := print()
+		if err != nil || !strings.Contains(out1, "\"fmt\"") || !strings.Contains(out1, "fmt.Println()") {
+			c.Fail(Finding{Sig: "two-pass-import-not-added", Input: key, What: fmt.Sprintf("after adding fmt.Println: %v\n%s", err, out1), Replay: obj{"kind": "none"}})
+			continue
+		}
+		// the same tree printed again without an edit: identical
+		if out1b, err := print(); err != nil || out1b != out1 {
+			c.Fail(Finding{Sig: "two-pass-unstable", Input: key, What: fmt.Sprintf("the same tree printed twice: %v\n%s\nvs\n%s", err, out1, out1b), Replay: obj{"kind": "none"}})
+			continue
+		}
+		fn.Body.List = fn.Body.List[:len(fn.Body.List)-1]
+		out2, err := print()
+		want, _ := format.Source([]byte(src))
+		if err != nil || out2 != string(want) {
+			c.Fail(Finding{Sig: "two-pass-import-not-removed", Input: key, What: fmt.Sprintf("after removing the reference again the file should be the source: %v\n%s", err, out2), Replay: obj{"kind": "none"}})
 		}
 	}
 }
